@@ -230,14 +230,17 @@ def conclude(prop, tier, seed, pl, results, extra, args, t0):
     for ln in known_lines:
         print(ln)
     print(f"{prop} {tier}: obligations={n_ob} discharged={n_dis} open={len(open_names)} violations={len(violations)} undecided={len(undecided)} crashes={len(crashes)} wall={wall}s")
+    if violations:
+        # a refuted obligation stands whatever else went wrong in the run: a crash or a vacuity guard firing in another function is printed, it does not hide the violation
+        for c in crashes + vacuous:
+            print("CRASH", c)
+        for v in violations:
+            print(v)
+        return 1
     if crashes or vacuous:
         for c in crashes + vacuous:
             print("CRASH", c)
         return 3
-    if violations:
-        for v in violations:
-            print(v)
-        return 1
     if undecided:
         for u in undecided[:30]:
             print("UNDECIDED", u)
